@@ -3,9 +3,9 @@
    row <<"E", s, per-class results [si, ui, sf, uf] (0 = nil, else [n, i, f] = sign, integer digits, fractional digits),
         types for which an accepted string is nil because of range or scale>>.
    Mode "file": cases.ndjson, one state per case:
-     [k |-> "P", s, t]        fromString row  <<"P", t, s, result>>            result = 0 | [n, d] (scaled magnitude digits)
+     [k |-> "P", s, t]        fromString row  <<"P", t, s, result, why>>       result = 0 | [n, d] (scaled magnitude digits)
      [k |-> "S", t, neg, d]   toString row    <<"S", t, neg, d, text>>         (only when the value is in range)
-     [k |-> "B", t, b]        bytes row       <<"B", t, b, result, canonical bytes>>
+     [k |-> "B", t, b]        bytes row       <<"B", t, b, result, canonical bytes, alternative result, its bytes>>
      [k |-> "A", b] / [k |-> "H", b] / [k |-> "Q", dom, id]   address / hex / path text rows *)
 EXTENDS NumText, Json, TLC
 CONSTANTS Mode, N
@@ -25,20 +25,24 @@ Cls == [si |-> [signed |-> TRUE, fixed |-> FALSE], ui |-> [signed |-> FALSE, fix
 ClassRes(cl, str) == IF Accepts(cl, str) THEN LET p == Parts(str) IN [n |-> p.neg, i |-> p.i, f |-> p.f] ELSE 0
 Res(r) == IF r.ok THEN [n |-> r.neg, d |-> r.d] ELSE 0
 EnumJudge ==
-  LET anyAcc == \E c \in DOMAIN Cls : Accepts(Cls[c], s)
+  LET acc == TLCEval([c \in DOMAIN Cls |-> Accepts(Cls[c], s)])
+      res == [c \in DOMAIN Cls |-> IF acc[c] THEN LET p == Parts(s) IN [n |-> p.neg, i |-> p.i, f |-> p.f] ELSE 0]
+      anyAcc == \E c \in DOMAIN Cls : acc[c]
       out == IF anyAcc THEN {t \in TypeNames : Accepts(ClassOf(TypeInfo[t]), s) /\ ~FromString(TypeInfo[t], s).ok} ELSE {}
-  IN /\ WidthIndependent(s)
-     /\ PrintT(ToJson(<<"E", s, [c \in DOMAIN Cls |-> ClassRes(Cls[c], s)], out>>))
+  IN /\ anyAcc => WidthIndependent(s)
+     /\ PrintT(ToJson(<<"E", s, res, out>>))
 FileJudge ==
   LET c == Cases[a] IN
-  CASE c.k = "P" -> PrintT(ToJson(<<"P", c.t, c.s, Res(FromString(TypeInfo[c.t], c.s))>>))
+  CASE c.k = "P" -> PrintT(ToJson(<<"P", c.t, c.s, Res(FromString(TypeInfo[c.t], c.s)), FromStringWhy(TypeInfo[c.t], c.s)>>))
     [] c.k = "S" -> LET ti == TypeInfo[c.t]  v == Val(c.neg, c.d) IN
                     IF ~InRange(ti, v.neg, v.d) THEN TRUE
                     ELSE /\ StringRoundTrip(ti, v) /\ BytesRoundTrip(ti, v)
-                         /\ PrintT(ToJson(<<"S", c.t, v.neg, v.d, ToString(ti, v), ToBigEndianBytes(ti, v)>>))
-    [] c.k = "B" -> LET ti == TypeInfo[c.t]  r == FromBigEndianBytes(ti, c.b) IN
+                         /\ PrintT(ToJson(<<"S", c.t, v.neg, v.d, NumToString(ti, v), ToBigEndianBytes(ti, v)>>))
+    [] c.k = "B" -> LET ti == TypeInfo[c.t]  r == FromBigEndianBytes(ti, c.b)  r2 == FromBigEndianBytesAlt(ti, c.b) IN
                     /\ r.ok => BytesRoundTrip(ti, [neg |-> r.neg, d |-> r.d])
-                    /\ PrintT(ToJson(<<"B", c.t, c.b, Res(r), IF r.ok THEN ToBigEndianBytes(ti, [neg |-> r.neg, d |-> r.d]) ELSE 0>>))
+                    /\ r2.ok => BytesRoundTrip(ti, [neg |-> r2.neg, d |-> r2.d])
+                    /\ PrintT(ToJson(<<"B", c.t, c.b, Res(r), IF r.ok THEN ToBigEndianBytes(ti, [neg |-> r.neg, d |-> r.d]) ELSE 0,
+                                       Res(r2), IF r2.ok THEN ToBigEndianBytes(ti, [neg |-> r2.neg, d |-> r2.d]) ELSE 0>>))
     [] c.k = "A" -> PrintT(ToJson(<<"A", c.b, AddressText(c.b)>>))
     [] c.k = "H" -> PrintT(ToJson(<<"H", c.b, HexOf(c.b)>>))
     [] c.k = "Q" -> PrintT(ToJson(<<"Q", c.dom, c.id, PathText(c.dom, c.id)>>))
